@@ -533,5 +533,15 @@ example :
     rcases he with rfl | rfl <;> rfl
   · refine ⟨rfl, fun j hj => absurd hj (by omega), _, _, rfl, by decide +kernel, rfl, by decide +kernel⟩
 
+/-- the checkers can fail: a child whose `parent` field does not name its holder / an entry list naming the same child twice -/
+example :
+    pathOKb (O := Nat) goHeur
+      [{ parent := none, leaf := false, level := 2, entries := [⟨⟨0, 0, 1, 1⟩, some 1, none⟩] },
+       { parent := none, leaf := true, level := 1, entries := [⟨⟨0, 0, 1, 1⟩, none, some 7⟩] }] ⟨0, 0, 0, 0⟩ 1 0 2 0 = false ∧
+    onPathb (O := Nat)
+      [{ parent := none, leaf := false, level := 2, entries := [⟨⟨0, 0, 1, 1⟩, some 1, none⟩, ⟨⟨0, 0, 1, 1⟩, some 1, none⟩] },
+       { parent := some 0, leaf := true, level := 1, entries := [⟨⟨0, 0, 1, 1⟩, none, some 7⟩] }] 0 0 2 0 [0] 1 = false := by
+  constructor <;> decide +kernel
+
 end Heap
 end GeomV.C11
